@@ -35,6 +35,7 @@ type zzWorld struct {
 }
 
 var zzWantBlobEntry bool // an index additionally lists a blob-typed entry
+var zzWantArtifactEntry bool // an index additionally lists an OCI artifact manifest (no case of its own in the copy)
 
 var zzWantForeign bool // registry harness: the first layer of the first image is a foreign layer
 
@@ -98,6 +99,15 @@ func zzBuildWorld() *zzWorld {
 			idx.Manifests = append(idx.Manifests, x)
 			w.all = append(w.all, x.Digest)
 			w.plain[x.Digest] = true
+		}
+		if zzWantArtifactEntry {
+			// an index entry that is a manifest of a type the copy has no case for (an OCI artifact
+			// manifest naming one blob): it is copied through the "unknown media type" branch
+			ab := []byte(`{"mediaType":"application/vnd.oci.artifact.manifest.v1+json","artifactType":"application/example","blobs":[{"mediaType":"application/octet-stream","digest":"` + w.pool[1].Digest.String() + `","size":2}]}`)
+			x := w.put(ab, "application/vnd.oci.artifact.manifest.v1+json", true)
+			idx.Manifests = append(idx.Manifests, x)
+			w.all = append(w.all, w.pool[1].Digest, x.Digest)
+			w.plain[w.pool[1].Digest] = true
 		}
 		b, _ := json.Marshal(idx)
 		w.top = w.put(b, mediatype.OCI1ManifestList, true)
@@ -172,11 +182,12 @@ func zzRefsPresent(root string, b []byte) bool {
 		Manifests []descriptor.Descriptor `json:"manifests"`
 		Config    *descriptor.Descriptor  `json:"config"`
 		Layers    []descriptor.Descriptor `json:"layers"`
+		Blobs     []descriptor.Descriptor `json:"blobs"`
 	}
 	if json.Unmarshal(b, &probe) != nil {
 		return true
 	}
-	for _, m := range probe.Manifests {
+	for _, m := range append(probe.Manifests, probe.Blobs...) {
 		if !zzos.Cur.Exists(zzBlobFile(root, m.Digest)) {
 			return false
 		}
@@ -207,7 +218,9 @@ func ZZC03_copy_faults() {
 }
 
 func zzCopy(failAt int) {
+	zzWantArtifactEntry = zzBool("artifact_manifest_entry")
 	w := zzBuildWorld()
+	zzWantArtifactEntry = false
 	had, oldTag := w.zzSeedTarget()
 	calls := 0
 	zzos.Cur.MayFail = func(op, name string) bool {
